@@ -245,6 +245,25 @@ def main(tier):
         for c, l in zip(cs, o):
             c["xer"] = l.split()[1] if l.startswith("OK ") else None
 
+    # the model's account of every case: blocks owned by the decoded structure, ledger after free / reset
+    model = model_build()
+    ml = []
+    for c in cases:
+        ml += ["c14own 0 %s %s" % (c["ts"], c["vs"]), "c14own 1 %s %s" % (c["ts"], c["vs"])]
+    rcm, mo, me = run_lines(model, ml, timeout=900)
+    if rcm != 0 or len(mo) != len(ml):
+        run.violation("model:Heap", {"what": "model driver failed", "stderr": me[-1500:]}, no_input=True)
+        mo = [""] * len(ml)
+    for i, c in enumerate(cases):
+        for key, o in (("own", mo[2 * i]), ("own_oer", mo[2 * i + 1])):
+            c[key] = dict(x.split("=", 1) for x in o.split() if "=" in x)
+            d = c[key]
+            if d and (d.get("free") != "OK:0" or d.get("reset") != "OK:1" or d.get("zero") != "1" or d.get("shape") != "1" or d.get("fe") != d.get("n")
+                      or int(d.get("fr", -1)) != int(d.get("n", 0)) - 1):
+                run.violation("model:Heap", {"what": "the extracted model contradicts its own theorems (free/reset ledger, shape)", "model_type": c["ts"],
+                                             "value": c["vs"], "model": o}, no_input=True)
+    tlog("model done")
+
     def chunked(exe, lines, n=60):
         """run lines in parallel chunks (a crash costs a process restart: keep the chunks short)"""
         chunks = [lines[i:i + n] for i in range(0, len(lines), n)]
@@ -434,6 +453,15 @@ def check_history(run, rep, h, p, x, fresh):
                         bad.append(("reset-not-fresh", i, "value decoded after reset differs from the value decoded into a fresh structure"))
         if h["kind"] == "fresh":
             run.count("fresh_dec_%s_%s" % (h["syn"], p[0].get("rc")))
+            own = c.get("own_oer") if h["syn"] == "oer" else c.get("own")
+            if p[0].get("rc") == "OK" and own:
+                # faithfulness: the C's ledger after a successful decode holds as many blocks as the model's structure owns
+                nC = p[0].get("live", "0/0").split("/")[0]
+                run.count("owned_blocks_%s" % (own["n"] if int(own["n"]) < 8 else "8+"))
+                if nC != own["n"]:
+                    run.violation("correspondence:Heap.owned", dict(rep, what="after a successful %s decode the C holds %s live blocks, the model's structure owns %s (%s)"
+                                                                    % (h["syn"], nC, own["n"], " ".join("%s=%s" % kv for kv in own.items())),
+                                                                    c=h["out"][:600]), no_input=True)
             if p[0].get("rc") == "OK" and p[1].get("hex") != c["der"]:
                 bad.append(("value", 0, "valid %s encoding decodes to a different value" % h["syn"]))
     for kind, opi, what in bad:
